@@ -211,4 +211,22 @@ def acceptLoop : Nat → Bytes → List Mime.Media → Except HErr (List Mime.Me
 
 def parseAccept (s : Bytes) : Except HErr (List Mime.Media) := acceptLoop (s.length + 1) s []
 
+
+/-! ### the registry as HeadersStep uses it -/
+
+/-- canonical (registered) name of a header name as received, compared case-insensitively -/
+def canonOf (name : Bytes) : Option String :=
+  (Gen.registeredHeaders.find? (fun p => (bytes p.2).map lower == name.map lower)).map (·.2)
+
+/-- does the typed reader of the registered header `canon` accept the value?  `none` = yes -/
+def typedCheck (canon : String) (v : Bytes) : Option HErr :=
+  if canon == "Cache-Control" then (match parseCacheControl v with | .ok _ => none | .error e => some e)
+  else if canon == "Content-Length" then (match parseContentLength v with | .ok _ => none | .error e => some e)
+  else if canon == "Host" then (match parseHost v with | .ok _ => none | .error e => some e)
+  else if canon == "Content-Type" then
+    (match Mime.parse v with | .ok _ => none | .error .unsupported => some (.http 415) | .error _ => some .unspec)
+  else if canon == "Accept" then (match parseAccept v with | .ok _ => none | .error e => some e)
+  else if canon == "Date" then some .unspec
+  else none
+
 end Pistache.Headers
